@@ -1,3 +1,4 @@
 From Coq Require Import Extraction ExtrOcamlBasic.
-From Oxia.Shard Require Import Model.
-Extraction "shard_model.ml" generate_shards chainedb route client_update.
+From Oxia.Shard Require Import Model Status.
+Extraction "shard_model.ml" generate_shards chainedb route client_update
+  apply_scripted delete_shard_metadata update_shard_metadata compute_assignments init_status.
